@@ -8,6 +8,7 @@ from pyvc.extract import Module, get_func
 import contracts.common, contracts.potential, contracts.lammps_table, contracts.dlpoly_table, contracts.gulp, contracts.setfl, contracts.tabeam
 import contracts.pair_tabulation as PT
 import contracts.eam_tabulation as ET
+import contracts.builders_eam as BE
 PKG = 'atsim/potentials'
 # the public write() of every text tabulation target: its contract is FUNCTIONAL -- the document after the call is the document before
 # it followed by a term built from the object's fields only -- and its frame is the document alone (modifies = ['fp']).  Two writes
@@ -15,7 +16,10 @@ PKG = 'atsim/potentials'
 # as long as the callables of the model are functions of r (app(f, r) is a function: the purity scan below is what justifies that)
 FUNCTIONS = [(PT.FILE, 'LAMMPS_PairTabulation.write'), (PT.FILE, 'DLPoly_PairTabulation.write'), (PT.FILE, 'GULP_PairTabulation.write'),
              (ET.FILE, 'SetFL_EAMTabulation.write'), (ET.FILE, 'SetFL_FS_EAMTabulation.write'), (ET.FILE, 'TABEAM_EAMTabulation.write'),
-             (ET.FILE, 'TABEAM_FinnisSinclair_EAMTabulation.write'), (ET.FILE, 'ADP_EAMTabulation.write')]
+             (ET.FILE, 'TABEAM_FinnisSinclair_EAMTabulation.write'), (ET.FILE, 'ADP_EAMTabulation.write'),
+             # element order of EAM tables: [EAM-Embed] order, then the zero-filled species SORTED (never the iteration order of a set)
+             (BE.F_EB, 'EAM_Potential_Builder._add_null_embedding_functions'), (BE.F_EB, 'EAM_Potential_Builder._init_eampotentials')]
+SPECSEQS = [BE.species_seq]
 
 ANCHORED = ['atsim/potentials/potentialfunctions.py', 'atsim/potentials/potentialforms.py', 'atsim/potentials/__init__.py', 'atsim/potentials/_util.py',
             'atsim/potentials/_potential.py', 'atsim/potentials/_eam_potential.py', 'atsim/potentials/_multi_range_potential_form.py', 'atsim/potentials/spline/__init__.py',
@@ -146,6 +150,7 @@ def lemmas():
     return set_site_obligations() + purity_obligations() + frame_obligations() + [det]
 
 MUTANTS = [
+    (BE.F_EB, 'EAM_Potential_Builder._add_null_embedding_functions', "for s in sorted(null_embed_species):", "for s in null_embed_species:", 'preserve/0'),
     (PT.FILE, 'LAMMPS_PairTabulation.write', "self.nr - 1", "self.nr", 'post'),
     (ET.FILE, 'ADP_EAMTabulation.write', "self._write_dipole(sbuild)\n    self._write_quadrupole(sbuild)", "self._write_quadrupole(sbuild)\n    self._write_dipole(sbuild)", 'post'),
 ]
